@@ -13,6 +13,7 @@ import (
 	"go/parser"
 	"go/token"
 	"go/types"
+	"os"
 	"regexp"
 	"sort"
 	"strconv"
@@ -641,6 +642,35 @@ func (sc *StagedConfig) render(c *Ctx, k, actSet int) *Skeleton {
 	if sk.Info.Instances == nil {
 		sk.Info.Instances = map[*ast.Ident]types.Instance{}
 	}
+	// parameters of the generated parser's functions in another order than on the confirmed tree: declaration and
+	// calls are put back into that order (rename.go, permuteParams) and the skeleton is checked again
+	if base := baselineSkelSyms[sc.V.Name]; base != nil && sk.Pkg != nil && len(sk.TypeErs) == 0 && os.Getenv("YACCVERIF_NORENAME") == "" {
+		plog := &renameLog{}
+		// a helper that changed sides (function ↔ method of its first parameter) is put back first
+		if changeSides(base, sk.Pkg, sk.Info, f, plog) {
+			info2 := &types.Info{Types: map[ast.Expr]types.TypeAndValue{}, Defs: map[*ast.Ident]types.Object{}, Uses: map[*ast.Ident]types.Object{},
+				Selections: map[*ast.SelectorExpr]*types.Selection{}, Implicits: map[ast.Node]types.Object{}, Scopes: map[ast.Node]*types.Scope{}, Instances: map[*ast.Ident]types.Instance{}}
+			var errs []string
+			conf2 := types.Config{Importer: stdImporter, Error: func(err error) { errs = append(errs, err.Error()) }}
+			pkg2, _ := conf2.Check("main", sk.Fset, []*ast.File{f}, info2)
+			sk.Pkg, sk.Info = pkg2, info2
+			for _, e := range errs {
+				sk.TypeErs = append(sk.TypeErs, "after function↔method normalisation: "+e)
+			}
+		}
+		if undo := permuteParams([]*permUnit{{dir: "generated parser", base: base, pkg: sk.Pkg, info: sk.Info, files: []*ast.File{f}}}, []*ast.File{f}, []*types.Info{sk.Info}, plog); undo != nil {
+			info2 := &types.Info{Types: map[ast.Expr]types.TypeAndValue{}, Defs: map[*ast.Ident]types.Object{}, Uses: map[*ast.Ident]types.Object{},
+				Selections: map[*ast.SelectorExpr]*types.Selection{}, Implicits: map[ast.Node]types.Object{}, Scopes: map[ast.Node]*types.Scope{}, Instances: map[*ast.Ident]types.Instance{}}
+			var errs []string
+			conf2 := types.Config{Importer: stdImporter, Error: func(err error) { errs = append(errs, err.Error()) }}
+			pkg2, _ := conf2.Check("main", sk.Fset, []*ast.File{f}, info2)
+			if len(errs) == 0 {
+				sk.Pkg, sk.Info = pkg2, info2
+			} else {
+				undo()
+			}
+		}
+	}
 	normaliseSkeleton(c, sk) // helpers the templates may have gained are inlined back (inline.go)
 	return sk
 }
@@ -693,6 +723,19 @@ func (sk *Skeleton) FuncDecl(recv, name string) *ast.FuncDecl {
 		if rn == recv {
 			return fd
 		}
+	}
+	// a helper of the generated parser that changed sides (function ↔ method) is still that helper when the name is
+	// unique in the file
+	var only *ast.FuncDecl
+	n := 0
+	for _, d := range sk.File.Decls {
+		if fd, ok := d.(*ast.FuncDecl); ok && fd.Name.Name == name && fd.Body != nil {
+			only = fd
+			n++
+		}
+	}
+	if n == 1 {
+		return only
 	}
 	return nil
 }
